@@ -194,4 +194,24 @@ VARIANTS = [
         {"file": LP, "old": "    def handle_proxied_packet(self, packet: UDPPacket):\n",
          "new": "    def _claim(self, msg):\n        self.session = self.session_manager.claim_session(msg[\"CircuitCode\"][0][\"SessionID\"])\n\n"
                 "    def handle_proxied_packet(self, packet: UDPPacket):\n"}]},
+    # ------------------------------------------------------------------ round 3
+    {"name": "R6 falsy test of the packet id in drop_message", "file": "hippolyzer/lib/proxy/circuit.py", "expect": "C06.R6",
+     "old": "        if message.packet_id is None:\n            return\n", "new": "        if not message.packet_id:\n            return\n"},
+    {"name": "P R6 None test joined with another condition", "file": "hippolyzer/lib/proxy/circuit.py", "expect": "silent",
+     "old": "        if message.packet_id is None:\n            return\n",
+     "new": "        if message.packet_id is None or message.finalized:\n            return\n"},
+    {"name": "P R5 deadness spelled through the region property", "file": SE, "expect": "silent",
+     "old": "                if not region.circuit or not region.circuit.is_alive:\n                    logging_hook = None\n",
+     "new": "                if not region.is_alive:\n                    logging_hook = None\n"},
+    {"name": "P R2 region lookup as next(generator, None)", "file": ST, "expect": "silent",
+     "old": "        for region in self.regions:\n            if region.circuit_addr == circuit_addr and region.circuit:\n"
+            "                return region\n        return None\n",
+     "new": "        return next((r for r in self.regions if r.circuit_addr == circuit_addr and r.circuit), None)\n"},
+    {"name": "R2 next(generator) lookup without the address filter", "file": ST, "expect": "C06.R2",
+     "old": "        for region in self.regions:\n            if region.circuit_addr == circuit_addr and region.circuit:\n"
+            "                return region\n        return None\n",
+     "new": "        return next((r for r in self.regions if r.circuit), None)\n"},
+    {"name": "P R1/R2 parse result accessed by index", "expect": "silent", "edits": [
+        {"file": SP, "old": "                remote_addr, data = socks_parsed\n",
+         "new": "                remote_addr = socks_parsed[0]\n                data = socks_parsed[1]\n"}]},
 ]
